@@ -15,7 +15,7 @@
    [CSub (base vi)] otherwise.  [a is b], [a == b], [a != b] on classes compare identities:
    a [CSub] is identical to nothing that can be named in the kernels. *)
 From Coq Require Import List Bool Arith ZArith String.
-From Serif Require Import Base.PyVal Spec.PySlice Model.Naming.
+From Serif Require Import Base.PyVal Spec.PySlice Model.Naming Model.Elementwise.
 Import ListNotations.
 
 Inductive cls := CK (k : kind) | CSub (k : kind).
@@ -64,3 +64,49 @@ Definition slice_indices (s : pyslice) (n : Z) : Z * Z * Z :=
 (* column names: str or None; == on them *)
 Definition pyname := option str.
 Definition pyname_eqb (a b : pyname) : bool := ostr_eqb a b.
+
+(* ---- fingerprint kernels (vector.py _hash_element, _compute_fingerprint_full) --------------
+   What _hash_element's tests can see of an element x, as independent observations:
+     el_none      x is None
+     el_hasfp     hasattr(x, "fingerprint") and callable(getattr(x, "fingerprint"))
+     el_float     isinstance(x, float)          el_nan   math.isnan(x)  (asked of floats only)
+     el_set       isinstance(x, set)            el_seq   isinstance(x, (list, tuple))
+     el_hashable  _is_hashable(x)  (hash(x) does not raise)
+   The generated functions take the element type X and, as parameters,
+     el_obs : X -> elinfo, el_hash : X -> Z (Python's hash(x)), el_nested_fp : X -> Z
+     (int(x.fingerprint()) of an element that has one), el_untranslated : X -> Z (the value computed
+     by a branch the translator recognises but does NOT translate: sets, lists/tuples, hash(repr(x))). *)
+Record elinfo := mkEl { el_none : bool; el_hasfp : bool; el_float : bool; el_nan : bool;
+                        el_set : bool; el_seq : bool; el_hashable : bool }.
+
+(* ---- operator dispatch (vector.py / table.py arithmetic dunders) ---------------------------
+   What a dunder does, read off its one-line body:
+     GVia o swapped name sym   return self._elementwise_operation(other, f, name, sym) where
+                               f(a, b) is  a <o> b  (swapped = false)  or  b <o> a  (swapped = true)
+     GOwnBody                  any other body (Vector.__radd__)
+     GDelegate d               return self.<dunder d>(other) *)
+Inductive groute :=
+| GVia (o : bop) (swapped : bool) (name sym : string)
+| GOwnBody
+| GDelegate (d : dunder).
+
+Fixpoint glookup (t : list (dunder * groute)) (d : dunder) : option groute :=
+  match t with
+  | [] => None
+  | (d', r) :: t' => if dunder_eqb d d' then Some r else glookup t' d
+  end.
+(* the route a dunder ends at (one delegation step is followed) *)
+Definition groute_of (t : list (dunder * groute)) (d : dunder) : option groute :=
+  match glookup t d with
+  | Some (GDelegate d') => glookup t d'
+  | r => r
+  end.
+(* op_func(x, y) of a GVia row, over the scalar semantics [scal] *)
+Definition gapply {val R} (scal : bop -> val -> val -> R) (o : bop) (swapped : bool) (x y : val) : R :=
+  if swapped then scal o y x else scal o x y.
+Definition dunder_name (d : dunder) : string :=
+  let base o := match o with Add => "add" | Sub => "sub" | Mul => "mul" | TrueDiv => "truediv"
+                           | FloorDiv => "floordiv" | Mod => "mod" | Pow => "pow" end%string in
+  match d with Plain o => ("__" ++ base o ++ "__")%string | Refl o => ("__r" ++ base o ++ "__")%string end.
+Definition bop_symbol (o : bop) : string :=
+  match o with Add => "+" | Sub => "-" | Mul => "*" | TrueDiv => "/" | FloorDiv => "//" | Mod => "%" | Pow => "**" end%string.
